@@ -6,10 +6,12 @@
      step    act ret msg st           the step as real SQL (run by a super user, SET ROLE in the user's own
                                       session); ret = ok | error | denied | panic; st = the engine's
                                       stored access-control state read back after the step
-     matrix  rows                     the probe matrix: one statement of every privilege class per
+     matrix  rows st                  the probe matrix: one statement of every privilege class per
                                       object run as every user; row = [u, cls, db, tbl, out, unch]
                                       out = allow | deny | error | panic, unch = data projection
-                                      after the statement equals the one before it
+                                      after the statement equals the one before it; st = the stored
+                                      access-control state read back after the probes (they do not
+                                      change it: an allowed probe is undone, a denied one has no effect)
      reload  ret gb ga stb sta mb ma  C41: SHOW GRANTS of every account, stored state and probe matrix
                                       before (b) and after (a) persist -> load into a fresh engine
 
@@ -83,7 +85,8 @@ ApplyAct(a) ==
          \/ a.name = "PersistReload" /\ PersistReload
 
 Prev == TraceLog[l - 1]
-NeedResync == l > 1 /\ Prev.ev = "step" /\ act.name # "resynced" /\ ~SameState(Prev.st)
+HasSt(e) == e.ev = "step" \/ (e.ev = "matrix" /\ "st" \in DOMAIN e)
+NeedResync == l > 1 /\ HasSt(Prev) /\ act.name # "resynced" /\ ~SameState(Prev.st)
 Resync ==
     /\ LoadAccts(LogAccts(Prev.st), LogEdges(Prev.st))
     /\ act' = [name |-> "resynced"]
@@ -142,6 +145,14 @@ JudgeRows(i, h, rows, pfx) ==
     /\ PrintT("ST " \o ToJson([l |-> i, h |-> h, rows |-> Len(rows),
                                 allowed |-> Cardinality({k \in DOMAIN rows : Allowed(rows[k].u, Requirement(rows[k].cls, rows[k].db, rows[k].tbl))})]))
 
+\* running statements as the users leaves the stored access-control state alone
+JudgeMatrixState(i, e) ==
+    IF ~HasSt(e) \/ SameState(e.st) THEN TRUE
+    ELSE MM([l |-> i, h |-> e.h, kind |-> "matrix-state", act |-> "matrix",
+             what |-> DiffWhat(SpecAccts, LogAccts(e.st), edges, LogEdges(e.st)),
+             spec |-> [accts |-> SpecAccts, edges |-> edges],
+             engine |-> [accts |-> LogAccts(e.st), edges |-> LogEdges(e.st)]])
+
 GSet(gs) == {[a |-> x.a, g |-> RangeOf(x.g)] : x \in RangeOf(gs)}
 \* the dynamic privileges SHOW GRANTS prints for the model's accounts (sd = the replayer's reading of the
 \* lines that name dynamic privileges: name and whether that line ends in WITH GRANT OPTION)
@@ -180,7 +191,7 @@ Judge ==
     (l > 1 /\ ~(act.name = "resynced")) =>
         LET e == Prev IN
         CASE e.ev = "step" -> JudgeStep(l - 1, e)
-          [] e.ev = "matrix" -> JudgeRows(l - 1, e.h, e.rows, "")
+          [] e.ev = "matrix" -> JudgeRows(l - 1, e.h, e.rows, "") /\ JudgeMatrixState(l - 1, e)
           [] e.ev = "reload" -> JudgeReload(l - 1, e)
           [] OTHER -> TRUE
 HW == TLCSet(1, l)                          \* high-water mark of the validated prefix
